@@ -69,7 +69,7 @@ pub fn keys_of(o: &StepOutcome) -> Vec<(Value, String)> {
             if r["i1"] == "panic" {
                 let s = &r["i1_site"];
                 out.push((
-                    json!({"class":"i1_panic","file":s["file"],"function":s["function"],"msg":s["msg"]}),
+                    json!({"class":"i1_panic","file":s["file"],"function":s["function"],"msg":s["msg"],"code":s["code"]}),
                     format!("energy_indicators() panicked: {} (line {})", s["raw"].as_str().unwrap_or(""), s["line"]),
                 ));
             }
